@@ -24,7 +24,7 @@ def handle (line : String) : String :=
   | op :: _ =>
     if op == "tpkt_read" || op == "x224_read" || op == "tpkt_tls" then c13 toks
     else if op == "tpkt_write" || op == "x224_write" then c14 toks
-    else if op == "blit" || op == "blitz" then c19 toks
+    else if op == "blit" || op == "blitz" || op == "blit16" then c19 toks
     else if op.startsWith "per_" then per toks
     else if op == "gsess" then gsess toks
     else if op == "decomp" then c08 toks
@@ -34,7 +34,7 @@ def handle (line : String) : String :=
     else if op == "strict" then strictOp toks
     else if op == "tlsgate" then tlsgateOp toks
     else if op == "gui" then guiOp toks
-    else if op == "x224_conn" || op == "gcc_ccr" || op == "lic" || op == "mcs_conn" || op == "sec_conn" then connectOps toks
+    else if op == "x224_conn" || op == "x224_stream" || op == "gcc_ccr" || op == "lic" || op == "mcs_conn" || op == "sec_conn" then connectOps toks
     else if op == "msg_wr" || op == "msg_rd" || op == "msg_rt" then c18 toks
     else "bad-op"
 
